@@ -26,6 +26,7 @@ import (
 	"go/ast"
 	"go/printer"
 	"go/token"
+	"sort"
 	"strings"
 
 	"verif/extract/common"
@@ -573,6 +574,97 @@ func main() {
 			}
 		}
 
+		// 5c. use.go getWrapper: does it decide with methods() of the type (own and promoted methods);
+		//     stdlib/wrapper-composed.go: which host interfaces have composed wrappers, with which methods
+		wrapperUsesMethodSet := false
+		var hU string
+		if fsU, fu, err := common.ParseFile(repo, "interp/use.go"); err != nil {
+			unrec = append(unrec, "interp/use.go: "+err.Error())
+		} else {
+			hU = common.HashTable(fsU, fu, [][2]string{{"", "getWrapper"}})
+			if fd := common.FindFunc(fu, "", "getWrapper"); fd == nil {
+				unrec = append(unrec, "use.go: getWrapper not found")
+			} else {
+				switch {
+				case contains(fd.Body, "lm := n.typ.methods()") && contains(fd.Body, "if _, ok := lm[rt.Field(i).Name[1:]]; !ok { match = false break }") &&
+					contains(fd.Body, "for _, rt := range n.interp.mapTypes[w] {") && contains(fd.Body, "if match { return rt }"):
+					wrapperUsesMethodSet = true
+				case contains(fd.Body, "getMethod(rt.Field(i).Name[1:]) == nil"):
+					// own methods only
+				default:
+					unrec = append(unrec, "use.go getWrapper: the test of the wrapper methods is not recognised: "+text(fd.Body))
+				}
+			}
+		}
+		composed := "[]"
+		if _, fw, err := common.ParseFile(repo, "stdlib/wrapper-composed.go"); err != nil {
+			unrec = append(unrec, "stdlib/wrapper-composed.go: "+err.Error())
+		} else {
+			// struct types: the names of their W… fields
+			fields := map[string][]string{}
+			for _, d := range fw.Decls {
+				gd, ok := d.(*ast.GenDecl)
+				if !ok {
+					continue
+				}
+				for _, sp := range gd.Specs {
+					ts, ok := sp.(*ast.TypeSpec)
+					if !ok {
+						continue
+					}
+					st, ok := ts.Type.(*ast.StructType)
+					if !ok {
+						continue
+					}
+					for _, f := range st.Fields.List {
+						for _, nm := range f.Names {
+							if strings.HasPrefix(nm.Name, "W") {
+								fields[ts.Name.Name] = append(fields[ts.Name.Name], nm.Name[1:])
+							}
+						}
+					}
+				}
+			}
+			// init: MapTypes[reflect.ValueOf((*_io_Reader)(nil))] = []reflect.Type{ reflect.ValueOf((*_ioReaderWriteTo)(nil)).Type().Elem(), … }
+			var entries []string
+			if fd := common.FindFunc(fw, "", "init"); fd == nil {
+				unrec = append(unrec, "stdlib/wrapper-composed.go: init not found")
+			} else {
+				for _, st := range fd.Body.List {
+					as, ok := st.(*ast.AssignStmt)
+					if !ok || len(as.Lhs) != 1 || len(as.Rhs) != 1 {
+						unrec = append(unrec, "wrapper-composed.go init: "+text(st))
+						continue
+					}
+					l, r := text(as.Lhs[0]), as.Rhs[0]
+					const pre, post = "MapTypes[reflect.ValueOf((*", ")(nil))]"
+					cl, ok := r.(*ast.CompositeLit)
+					if !strings.HasPrefix(l, pre) || !strings.HasSuffix(l, post) || !ok {
+						unrec = append(unrec, "wrapper-composed.go init: "+text(st))
+						continue
+					}
+					base := strings.TrimSuffix(strings.TrimPrefix(l, pre), post)
+					var lists []string
+					for _, e := range cl.Elts {
+						et := text(e)
+						const p2, s2 = "reflect.ValueOf((*", ")(nil)).Type().Elem()"
+						if !strings.HasPrefix(et, p2) || !strings.HasSuffix(et, s2) {
+							unrec = append(unrec, "wrapper-composed.go init: "+et)
+							continue
+						}
+						name := strings.TrimSuffix(strings.TrimPrefix(et, p2), s2)
+						if len(fields[name]) == 0 {
+							unrec = append(unrec, "wrapper-composed.go: struct "+name+" not found")
+						}
+						lists = append(lists, common.LeanStrList(fields[name]))
+					}
+					entries = append(entries, "("+common.LeanStr(base)+", ["+strings.Join(lists, ", ")+"])")
+				}
+			}
+			sort.Strings(entries)
+			composed = "[" + strings.Join(entries, ",\n   ") + "]"
+		}
+
 		// 6. genValueInterface: is an addressable value copied before it is wrapped
 		ifaceCopies := false
 		if fd := common.FindFunc(fv, "", "genValueInterface"); fd == nil {
@@ -618,13 +710,19 @@ def facts : Facts :=
     assertPtrOwnOnly := %v,
     tswitchCasesChecked := %v,
     assertHostWrapsHeld := %v,
+    wrapperUsesMethodSet := %v,
     recvBind := { atCreation := %v, ptrToVal := .%s, valToPtr := .%s, same := .%s, call := .%s,
                   lateNilNode := %v, lateCall := .%s, ifaceWrapHeld := %v },
     ifaceCopies := %v }
+/-- stdlib/wrapper-composed.go: the host interfaces (by the name of their plain wrapper) that have
+    composed wrappers, with the methods of each composed wrapper -/
+def composedWrappers : List (String × List (List String)) :=
+  %s
 /-- constructs the extractor no longer recognises -/
 def unrecognised : List String := %s
 /-- fingerprints of the transcribed functions, of three cases of cfg.go and of the receiver binding -/
 def sourceHashes : List (String × String) :=
+  %s ++
   %s ++
   %s ++
   %s ++
@@ -636,8 +734,8 @@ def sourceHashes : List (String × String) :=
    ("cfg.go post-order case typeSwitch", %s),
    ("genFunctionWrapper receiver binding", %s)]
 end YaegiVerif.Generated.C05
-`, defaultSwap, clauseChain, methodPick, ambCheck, embedOnly, fieldPick, namesOnly, common.LeanStr(methodWins), common.LeanStr(ambiguous), depthMinus, fieldAmb, implPtr, assertPtrOwnOnly, tswitchChecked, assertHostHeld,
-			atCreation, bind["ptrToVal"], bind["valToPtr"], bind["same"], bind["call"], lateNilNode, bind["lateCall"], ifaceWrapHeld, ifaceCopies,
-			common.LeanStrList(unrec), hT, hC, hR, hK, hV, common.LeanStr(selHash), common.LeanStr(preHash), common.LeanStr(postHash), common.LeanStr(tsHash), common.LeanStr(recvHash)), nil
+`, defaultSwap, clauseChain, methodPick, ambCheck, embedOnly, fieldPick, namesOnly, common.LeanStr(methodWins), common.LeanStr(ambiguous), depthMinus, fieldAmb, implPtr, assertPtrOwnOnly, tswitchChecked, assertHostHeld, wrapperUsesMethodSet,
+			atCreation, bind["ptrToVal"], bind["valToPtr"], bind["same"], bind["call"], lateNilNode, bind["lateCall"], ifaceWrapHeld, ifaceCopies, composed,
+			common.LeanStrList(unrec), hT, hC, hR, hK, hV, hU, common.LeanStr(selHash), common.LeanStr(preHash), common.LeanStr(postHash), common.LeanStr(tsHash), common.LeanStr(recvHash)), nil
 	})
 }
